@@ -45,6 +45,19 @@ def gen(tier, seed):
         inv = {k: not v for k, v in o.items()}
         pairs.append([tab_request(s1, opts=inv), tab_request(s1, opts=o)])
         pairs.append([vis_request(s1, opts={"annotations": inv["annotations"], "dov": True, "binaryTree": True}), tab_request(s1, opts=o)])
+    # the same request again with exactly one option changed (everything else identical), both directions
+    for k in TAB_BOOL:
+        o = {kk: rng.random() < 0.5 for kk in TAB_BOOL}
+        o["dynamicSchema"] = False if k != "dynamicSchema" else o["dynamicSchema"]
+        o2 = dict(o); o2[k] = not o[k]
+        f = rng.choice([GS, CSV])
+        pairs.append([tab_request(s1, opts=o, fmt=f), tab_request(s1, opts=o2, fmt=f)])
+        pairs.append([tab_request(s1, opts=o2, fmt=f), tab_request(s1, opts=o, fmt=f)])
+    for k in VIS_BOOL:
+        o = {kk: rng.random() < 0.5 for kk in VIS_BOOL}
+        o2 = dict(o); o2[k] = not o[k]
+        pairs.append([vis_request(s0, opts=o), vis_request(s0, opts=o2)])
+        pairs.append([vis_request(s0, opts=o2), vis_request(s0, opts=o)])
     # a URL request that leaves an option out (the page's default applies) after a request that set that option either way
     for k in TAB_BOOL:
         for v in (False, True):
